@@ -109,7 +109,7 @@ pub trait Check: Sync {
     /// wall cap in seconds for the whole tier (evidence says exhaustive:false if hit)
     fn wall_cap_s(&self, tier: Tier) -> u64 {
         match tier {
-            Tier::Quick => 50,
+            Tier::Quick => 300,
             Tier::Thorough => 3600,
         }
     }
@@ -594,6 +594,9 @@ pub fn orchestrate(check: &dyn Check, tier: Tier, root: &str, jobs: usize, seed:
             println!("MACHINERY-ERROR: {}", e);
         }
         return RunResult { exit: 2 };
+    }
+    if !exhaustive {
+        println!("CAPPED: the wall cap of the tier was reached after {} of {} cases; the verdict covers that prefix only (not a violation; the evidence says exhaustive=false)", merged.cases, n);
     }
     RunResult { exit: if violations.is_empty() { 0 } else { 1 } }
 }
